@@ -1910,8 +1910,8 @@ theorem map_closeFut_id {s : Sys} {T : List (Kind × Nat)} {i : Nat} {o : FOp} (
     simp [this]
 
 
-theorem poll_inv {s : Sys} (i : Nat) (h : Inv s) : Inv (s.poll i).1 := by
-  unfold Sys.poll
+theorem pollCore_inv {s : Sys} (i : Nat) (h : Inv s) : Inv (s.pollCore i).1 := by
+  unfold Sys.pollCore
   cases hio : s.ops[i]? with
   | none => exact h
   | some o =>
@@ -2103,17 +2103,17 @@ theorem okVals_single (o : FOp) (hm : o.op.multi = false) (hw : opWt o.op) :
         · left; simp [stored, resList, hc]
 
 /-- The kernel installs fresh descriptors for operation `i`. -/
-theorem InvG.addDescs {s : Sys} {T : List (Kind × Nat)} (h : InvG s T) (k : Kind) (raws : List Nat)
+theorem InvG.addDescs {s : Sys} {T : List (Kind × Nat)} (h : InvG s T) (b : Bool) (k : Kind) (raws : List Nat)
     (st : DSt) (hst : (∃ i, st = .pending i) ∨ st = .lost) (hok : s.kernelOk k raws = true) :
-    InvG { s with descs := s.descs ++ raws.map (Desc.fresh k st) } T := by
+    InvG { s with descs := s.descs ++ raws.map (Desc.freshS b k st) } T := by
   unfold Sys.kernelOk at hok
   simp only [Bool.and_eq_true, decide_eq_true_eq, List.all_eq_true, Bool.not_eq_eq_eq_not,
     Bool.not_true, decide_eq_false_iff_not] at hok
   obtain ⟨hnd, hall⟩ := hok
   have hnew : ∀ (d : Nat) (e : Desc),
-      (s.descs ++ raws.map (Desc.fresh k st))[d]? = some e →
+      (s.descs ++ raws.map (Desc.freshS b k st))[d]? = some e →
       s.descs[d]? = some e ∨ (s.descs.length ≤ d ∧ ∃ r, raws[d - s.descs.length]? = some r ∧
-        e = Desc.fresh k st r) := by
+        e = Desc.freshS b k st r) := by
     intro d e he
     rcases Nat.lt_or_ge d s.descs.length with hlt | hge
     · rw [List.getElem?_append_left hlt] at he; exact Or.inl he
@@ -2122,7 +2122,7 @@ theorem InvG.addDescs {s : Sys} {T : List (Kind × Nat)} (h : InvG s T) (k : Kin
       | none => simp [hr] at he
       | some r => simp [hr] at he; exact Or.inr ⟨hge, r, rfl, he.symm⟩
   have hold : ∀ (d : Nat) (e : Desc), s.descs[d]? = some e →
-      (s.descs ++ raws.map (Desc.fresh k st))[d]? = some e := by
+      (s.descs ++ raws.map (Desc.freshS b k st))[d]? = some e := by
     intro d e he
     rw [List.getElem?_append_left (getElem?_lt he)]; exact he
   have hmem : ∀ {n : Nat} {r : Nat}, raws[n]? = some r → r ∈ raws := by
@@ -2139,12 +2139,12 @@ theorem InvG.addDescs {s : Sys} {T : List (Kind × Nat)} (h : InvG s T) (k : Kin
     · obtain ⟨⟨h1, h2⟩, _⟩ := hall r (hmem hr)
       have hne : st ≠ .closed := by rcases hst with ⟨i, rfl⟩ | rfl <;> simp
       refine { raw := h1, std := ?_, closed := fun c => absurd c hne, opn := fun _ => rfl,
-               rel := fun c => by rcases hst with ⟨i, rfl⟩ | rfl <;> simp [Desc.fresh] at c,
-               own := fun a c => by rcases hst with ⟨i, rfl⟩ | rfl <;> simp [Desc.fresh] at c,
-               cf := fun j c => by rcases hst with ⟨i, rfl⟩ | rfl <;> simp [Desc.fresh] at c,
+               rel := fun c => by rcases hst with ⟨i, rfl⟩ | rfl <;> simp [Desc.freshS] at c,
+               own := fun a c => by rcases hst with ⟨i, rfl⟩ | rfl <;> simp [Desc.freshS] at c,
+               cf := fun j c => by rcases hst with ⟨i, rfl⟩ | rfl <;> simp [Desc.freshS] at c,
                wr0 := fun _ => rfl, wr1 := fun c => absurd hst c }
       intro hk
-      simp only [Desc.fresh] at hk
+      simp only [Desc.freshS] at hk
       subst hk
       simp at h2
       have := h.lo
@@ -2161,7 +2161,7 @@ theorem InvG.addDescs {s : Sys} {T : List (Kind × Nat)} (h : InvG s T) (k : Kin
       · exfalso
         obtain ⟨_, hfresh⟩ := hall r1 (hmem hr1)
         exact hfresh e2 (List.mem_of_getElem? a2) ⟨hk.symm, hr.symm, c2⟩
-      · simp only [Desc.fresh] at hr
+      · simp only [Desc.freshS] at hr
         subst hr
         have := (List.getElem?_inj (getElem?_lt hr1) hnd).mp (hr1.trans hr2.symm)
         omega
@@ -2277,8 +2277,10 @@ theorem kpost_inv {s : Sys} (i : Nat) (out : Outcome) (more : Bool) (h : Inv s) 
               have hstA : (∃ j, (if o.op.futLive = true then DSt.pending i else DSt.lost) = .pending j) ∨
                   (if o.op.futLive = true then DSt.pending i else DSt.lost) = .lost := by
                 cases o.op.futLive <;> simp
-              have hA := h.addDescs (s.issueKind o) raws
-                (if o.op.futLive = true then DSt.pending i else DSt.lost) hstA hok
+              have hA : InvG { s with descs := s.descs ++ raws.map (Desc.fresh (s.issueKind o)
+                  (if o.op.futLive = true then DSt.pending i else DSt.lost)) } s.targets :=
+                h.addDescs false (s.issueKind o) raws
+                  (if o.op.futLive = true then DSt.pending i else DSt.lost) hstA hok
               obtain ⟨mk, _, _, mop, mon, mreq⟩ := kpostMem_static o raws
               have hkind_m : ∀ (s' : Sys), s'.issueKind (kpostMem o raws) = s'.issueKind o :=
                 fun s' => issueKind_static mk mon mreq
@@ -2418,6 +2420,444 @@ theorem kpost_inv {s : Sys} (i : Nat) (out : Outcome) (more : Bool) (h : Inv s) 
               exact hC
 
 
+/-! ### The synchronous `pipe2` fallback of `pipe` -/
+
+theorem poll_inv {s : Sys} (i : Nat) (h : Inv s) : Inv (s.poll i).1 := by
+  unfold Sys.poll
+  cases hio : s.ops[i]? with
+  | none => exact h
+  | some o =>
+    simp only []
+    split
+    · exact h
+    · exact pollCore_inv i h
+
+/-- What `FOp.pipe2Due` says about the operation. -/
+theorem pipe2Due_elim {o : FOp} (hd : o.pipe2Due = true) :
+    o.kind = .pipe ∧ o.op.futLive = true ∧
+    ∃ r x r', o.op.status = .done r ∧ r.next = some (x, r') ∧ x.res = -22 := by
+  unfold FOp.pipe2Due at hd
+  simp only [Bool.and_eq_true, beq_iff_eq] at hd
+  obtain ⟨⟨hk, hl⟩, hm⟩ := hd
+  refine ⟨hk, hl, ?_⟩
+  cases hs : o.op.status with
+  | done r =>
+    rw [hs] at hm
+    simp only at hm
+    cases hn : r.next with
+    | none => rw [hn] at hm; simp at hm
+    | some p =>
+      obtain ⟨x, r'⟩ := p
+      rw [hn] at hm
+      simp only [beq_iff_eq] at hm
+      exact ⟨r, x, r', rfl, hn, hm⟩
+  | notStarted => rw [hs] at hm; simp at hm
+  | running r => rw [hs] at hm; simp at hm
+  | dropped => rw [hs] at hm; simp at hm
+  | complete => rw [hs] at hm; simp at hm
+
+/-- The poll that reads `-EINVAL` on a single-shot operation: the operation becomes `Complete`,
+the error goes to `fallback`, nothing is submitted. -/
+theorem pipe2Due_poll {o : FOp} (w : Nat) (room : Bool) (hd : o.pipe2Due = true) (hm : o.op.multi = false) :
+    o.op.poll w room =
+      ({ o.op with status := .complete, resInit := false, resDrops := o.op.resDrops + 1 }, .readyErr 22, []) := by
+  obtain ⟨_, _, r, x, r', hs, hn, hx⟩ := pipe2Due_elim hd
+  unfold Op.poll Op.pollAux
+  simp [hs, hn, hx, hm, EINTR, ECANCELED]
+
+/-- The state after that poll. -/
+theorem pollCore_due {s : Sys} {i : Nat} {o : FOp} (hio : s.ops[i]? = some o) (hd : o.pipe2Due = true)
+    (hm : o.op.multi = false) :
+    (s.pollCore i).1 = { s with ops := s.ops.set i { o with op :=
+      { o.op with status := .complete, resInit := false, resDrops := o.op.resDrops + 1 } } } := by
+  obtain ⟨_, hl, _⟩ := pipe2Due_elim hd
+  unfold Sys.pollCore
+  simp only [hio, hl, pipe2Due_poll i s.sqRoom hd hm]
+  simp
+
+theorem okVals_complete (o : FOp) (h : o.op.status = .complete) : okVals o = [] := by
+  simp [okVals, h, stored]
+
+theorem pollFb_inv {s : Sys} (i : Nat) (fb : Fb) (h : Inv s) : Inv (s.pollFb i fb).1 := by
+  unfold Sys.pollFb
+  cases hio : s.ops[i]? with
+  | none => exact h
+  | some o =>
+    simp only []
+    split
+    · exact h
+    · rename_i hdue'
+      have hdue : o.pipe2Due = true := by
+        cases hx : o.pipe2Due <;> simp_all
+      cases fb with
+      | fail e =>
+        simp only []
+        split
+        · exact h
+        · exact pollCore_inv i h
+      | ok raws =>
+        simp only []
+        split
+        · exact h
+        · split
+          · exact h
+          · rename_i hlen hkok
+            have hok : s.kernelOk .file raws = true := by
+              cases hx : s.kernelOk .file raws <;> simp_all
+            obtain ⟨hkind, hlive, _⟩ := pipe2Due_elim hdue
+            have ho := h.op i o hio
+            have hm : o.op.multi = false := ho.single (by rw [hkind]; simp)
+            have h1 : Inv (s.pollCore i).1 := pollCore_inv i h
+            have hs1 := pollCore_due hio hdue hm
+            rw [hs1] at h1 ⊢
+            have hlt : i < s.ops.length := getElem?_lt hio
+            -- `pipe2` installs the descriptors
+            have hA := InvG.addDescs h1 true .file raws (.pending i) (Or.inl ⟨i, rfl⟩) hok
+            -- facts from the kernel contract
+            have hok' := hok
+            unfold Sys.kernelOk at hok'
+            simp only [Bool.and_eq_true, decide_eq_true_eq, List.all_eq_true, Bool.not_eq_eq_eq_not,
+              Bool.not_true, decide_eq_false_iff_not] at hok'
+            obtain ⟨hraws_nd, _⟩ := hok'
+            -- `map_ok` wraps them
+            have hw := wrap_inv (s := { s with
+                ops := s.ops.set i { o with op :=
+                  { o.op with status := .complete, resInit := false, resDrops := o.op.resDrops + 1 } },
+                descs := s.descs ++ raws.map (Desc.freshS true .file (.pending i)) })
+              i .file raws hA
+              (by intro v hv
+                  obtain ⟨n, hn, hnv⟩ := List.getElem_of_mem hv
+                  refine ⟨s.descs.length + n, Desc.freshS true .file (.pending i) v, ?_, rfl, rfl, rfl⟩
+                  show (s.descs ++ raws.map (Desc.freshS true .file (.pending i)))[s.descs.length + n]? = _
+                  rw [List.getElem?_append_right (by omega)]
+                  simp [hn, hnv])
+              hraws_nd
+              (by intro o2 ho2 v _ hin
+                  have : (s.ops.set i { o with op :=
+                      { o.op with status := .complete, resInit := false, resDrops := o.op.resDrops + 1 } })[i]?
+                      = some o2 := ho2
+                  simp [hlt] at this
+                  subst this
+                  rw [okVals_complete _ rfl] at hin
+                  cases hin)
+            generalize hwr : Sys.wrap _ i Kind.file raws = wr at hw ⊢
+            obtain ⟨s3, hs⟩ := wr
+            simp only at hw ⊢
+            show InvG s3 (Sys.targets s3)
+            have hsq := (wrap_frame { s with
+                ops := s.ops.set i { o with op :=
+                  { o.op with status := .complete, resInit := false, resDrops := o.op.resDrops + 1 } },
+                descs := s.descs ++ raws.map (Desc.freshS true .file (.pending i)) } i .file raws).1
+            rw [hwr] at hsq
+            simp only at hsq
+            unfold Sys.targets
+            rw [hsq]
+            exact hw
+
+
+/-! ### Descriptors created by the fallback (`Desc.sync`) -/
+
+/-- A descriptor returned by the synchronous `pipe2` is regular and has been wrapped. -/
+def SyncP (e : Desc) : Prop := e.sync = true → e.kind = .file ∧ 1 ≤ e.wraps
+
+def SyncOk (s : Sys) : Prop := ∀ e ∈ s.descs, SyncP e
+
+theorem SyncP.mono {e e' : Desc} (h : SyncP e) (h1 : e'.sync = e.sync) (h2 : e'.kind = e.kind)
+    (h3 : e.wraps ≤ e'.wraps) : SyncP e' := by
+  intro hs
+  obtain ⟨a, b⟩ := h (h1 ▸ hs)
+  exact ⟨h2 ▸ a, Nat.le_trans b h3⟩
+
+theorem syncP_map {l : List Desc} {f : Desc → Desc} (h : ∀ e ∈ l, SyncP e)
+    (hf : ∀ e, (f e).sync = e.sync ∧ (f e).kind = e.kind ∧ e.wraps ≤ (f e).wraps) :
+    ∀ e ∈ l.map f, SyncP e := by
+  intro e he
+  obtain ⟨e0, h0, rfl⟩ := List.mem_map.mp he
+  exact (h e0 h0).mono (hf e0).1 (hf e0).2.1 (hf e0).2.2
+
+theorem syncP_modify {l : List Desc} {f : Desc → Desc} (d : Nat) (h : ∀ e ∈ l, SyncP e)
+    (hf : ∀ e, (f e).sync = e.sync ∧ (f e).kind = e.kind ∧ e.wraps ≤ (f e).wraps) :
+    ∀ e ∈ l.modify d f, SyncP e := by
+  intro e he
+  obtain ⟨n, hn⟩ := List.mem_iff_getElem?.mp he
+  rw [List.getElem?_modify] at hn
+  cases hl : l[n]? with
+  | none => simp [hl] at hn
+  | some e0 =>
+    have h0 := h e0 (List.mem_of_getElem? hl)
+    by_cases hdn : d = n
+    · simp [hl, hdn] at hn
+      subst hn
+      exact h0.mono (hf e0).1 (hf e0).2.1 (hf e0).2.2
+    · simp [hl, hdn] at hn
+      subst hn
+      exact h0
+
+theorem kclose_sync {s : Sys} (k : Kind) (idx : Nat) (h : SyncOk s) : SyncOk (s.kclose k idx).1 := by
+  unfold Sys.kclose
+  simp only []
+  split
+  · exact syncP_modify _ h (fun e => by simp [Desc.close])
+  · exact h
+
+theorem deliver_sync {s : Sys} (i : Nat) (c : Res) (h : SyncOk s) : SyncOk (s.deliver i c).1 := by
+  unfold SyncOk
+  rw [(deliver_frame s i c).1]
+  exact h
+
+theorem kstep_sync {s : Sys} (h : SyncOk s) : SyncOk (s.kstep).1 := by
+  unfold Sys.kstep
+  cases hsq : s.sq with
+  | nil => exact h
+  | cons e rest =>
+    simp only []
+    have h0 : SyncOk { s with sq := rest } := h
+    cases e with
+    | cancel i => exact h0
+    | op i cr =>
+      cases cr with
+      | none => exact h0
+      | some r =>
+        simp only []
+        have h1 := kclose_sync (s := { s with sq := rest }) r.target.1 r.target.2 h0
+        generalize Sys.kclose { s with sq := rest } r.target.1 r.target.2 = kc at h1
+        obtain ⟨s1, ok⟩ := kc
+        exact deliver_sync i _ h1
+    | close r =>
+      simp only []
+      have h1 := kclose_sync (s := { s with sq := rest }) r.target.1 r.target.2 h0
+      generalize Sys.kclose { s with sq := rest } r.target.1 r.target.2 = kc at h1
+      obtain ⟨s1, ok⟩ := kc
+      exact h1
+
+theorem kconsume_sync (n : Nat) {s : Sys} (h : SyncOk s) : SyncOk (Sys.kconsume n s).1 := by
+  induction n generalizing s with
+  | zero => exact h
+  | succ n ih =>
+    unfold Sys.kconsume
+    exact ih (kstep_sync h)
+
+theorem rpoll_sync {s : Sys} (h : SyncOk s) : SyncOk (s.rpoll).1 := by
+  unfold Sys.rpoll
+  exact kconsume_sync _ h
+
+theorem wrap_descs_sync (s : Sys) (i : Nat) (k : Kind) (vals : List Nat) (h : SyncOk s) :
+    SyncOk (s.wrap i k vals).1 := by
+  induction vals generalizing s with
+  | nil => exact h
+  | cons v vs ih =>
+    unfold Sys.wrap
+    simp only []
+    apply ih
+    exact syncP_map h (fun e => by split <;> simp)
+
+theorem newOp_sync {s : Sys} (kind : OpKind) (req : Kind) (a : Nat) (h : SyncOk s) :
+    SyncOk (s.newOp kind req a).1 := by
+  unfold Sys.newOp
+  cases kind <;> simp only []
+  case close =>
+    split
+    · exact h
+    · split
+      · exact h
+      · exact syncP_map h (fun e => by split <;> simp)
+  all_goals first
+    | exact h
+    | (split
+       · exact h
+       · split
+         · exact h
+         · exact h)
+
+theorem pollCore_sync {s : Sys} (i : Nat) (h : SyncOk s) : SyncOk (s.pollCore i).1 := by
+  unfold Sys.pollCore
+  cases hio : s.ops[i]? with
+  | none => exact h
+  | some o =>
+    simp only []
+    split
+    · exact h
+    · generalize o.op.poll i s.sqRoom = p
+      obtain ⟨op', out, effs⟩ := p
+      simp only []
+      have h1 : SyncOk { s with
+          ops := s.ops.set i { o with op := op' },
+          sq := if effs.contains .submit then s.sq ++ [.op i (if o.kind = .close then some (closeFileFd o.cfd o.ckind) else none)] else s.sq,
+          descs := if effs.contains .submit then s.descs.map (fun e =>
+              if e.st = .closeFut i then { e with st := .released } else e) else s.descs } := by
+        unfold SyncOk
+        simp only []
+        split
+        · exact syncP_map h (fun e => by split <;> simp)
+        · exact h
+      cases out with
+      | pending => exact h1
+      | readyErr e => exact h1
+      | readyNone => exact h1
+      | panic => exact h1
+      | readyOk x =>
+        simp only []
+        exact wrap_descs_sync _ i _ _ h1
+
+theorem dropOp_sync {s : Sys} (i : Nat) (h : SyncOk s) : SyncOk (s.dropOp i).1 := by
+  unfold Sys.dropOp
+  cases hio : s.ops[i]? with
+  | none => exact h
+  | some o =>
+    simp only []
+    split
+    · exact h
+    · exact syncP_map h (fun e => by split <;> (try split) <;> simp)
+
+theorem dropH_sync {s : Sys} (a : Nat) (h : SyncOk s) : SyncOk (s.dropH a).1 := by
+  unfold Sys.dropH
+  cases ha : s.handles[a]? with
+  | none => exact h
+  | some hh =>
+    simp only []
+    split
+    · exact h
+    · split
+      · exact h
+      · have h1 : SyncOk { s with
+            handles := s.handles.set a { hh with live := false },
+            descs := s.descs.map (fun e => if e.st = .owned a then { e with st := .released } else e) } :=
+          syncP_map h (fun e => by split <;> simp)
+        split
+        · exact h1
+        · simp only [syncTarget]
+          have h2 := kclose_sync (kindOf hh.word) (fdOf hh.word) h1
+          cases hk : kindOf hh.word <;> simp only [hk] at h2 ⊢ <;> exact h2
+
+theorem kpost_sync {s : Sys} (i : Nat) (out : Outcome) (more : Bool) (h : SyncOk s) :
+    SyncOk (s.kpost i out more).1 := by
+  unfold Sys.kpost
+  split
+  · exact h
+  · cases hio : s.ops[i]? with
+    | none => exact h
+    | some o =>
+      simp only []
+      split
+      · exact h
+      · cases out with
+        | err e =>
+          simp only []
+          split
+          · exact h
+          · exact deliver_sync i _ h
+        | ok raws =>
+          simp only []
+          split
+          · exact h
+          · split
+            · exact h
+            · apply deliver_sync
+              intro e he
+              simp only [List.mem_append, List.mem_map] at he
+              rcases he with he | ⟨r, _, rfl⟩
+              · exact h e he
+              · intro c; simp [Desc.fresh] at c
+
+/-- The entries `pipe2` just created are wrapped by the `map_ok` that follows. -/
+theorem wrap_fresh_sync (s : Sys) (i : Nat) (vals : List Nat)
+    (h : ∀ e ∈ s.descs, SyncP e ∨ (e.kind = .file ∧ e.st = .pending i ∧ e.closes = 0 ∧ e.raw ∈ vals)) :
+    SyncOk (s.wrap i .file vals).1 := by
+  induction vals generalizing s with
+  | nil =>
+    intro e he
+    rcases h e he with c | ⟨_, _, _, c⟩
+    · exact c
+    · cases c
+  | cons v vs ih =>
+    unfold Sys.wrap
+    simp only []
+    apply ih
+    intro e' he'
+    obtain ⟨e, he, rfl⟩ := List.mem_map.mp he'
+    rcases h e he with c | ⟨c1, c2, c3, c4⟩
+    · left
+      exact c.mono (by split <;> rfl) (by split <;> rfl) (by split <;> simp)
+    · by_cases hv : e.raw = v
+      · left
+        rw [if_pos ⟨c2, c1, hv, c3⟩]
+        intro _
+        exact ⟨c1, by simp⟩
+      · right
+        have : ¬ (e.st = .pending i ∧ e.kind = .file ∧ e.raw = v ∧ e.closes = 0) := fun x => hv x.2.2.1
+        rw [if_neg this]
+        refine ⟨c1, c2, c3, ?_⟩
+        simp only [List.mem_cons] at c4
+        rcases c4 with c4 | c4
+        · exact absurd c4 hv
+        · exact c4
+
+theorem pollFb_sync {s : Sys} (i : Nat) (fb : Fb) (h : SyncOk s) : SyncOk (s.pollFb i fb).1 := by
+  unfold Sys.pollFb
+  cases hio : s.ops[i]? with
+  | none => exact h
+  | some o =>
+    simp only []
+    split
+    · exact h
+    · cases fb with
+      | fail e =>
+        simp only []
+        split
+        · exact h
+        · exact pollCore_sync i h
+      | ok raws =>
+        simp only []
+        split
+        · exact h
+        · split
+          · exact h
+          · have h1 := pollCore_sync i h
+            have h2 := wrap_fresh_sync { (s.pollCore i).1 with
+                descs := (s.pollCore i).1.descs ++ raws.map (Desc.freshS true .file (.pending i)) } i raws
+              (by intro e he
+                  simp only [List.mem_append, List.mem_map] at he
+                  rcases he with he | ⟨r, hr, rfl⟩
+                  · exact Or.inl (h1 e he)
+                  · exact Or.inr ⟨rfl, rfl, rfl, hr⟩)
+            generalize Sys.wrap _ i Kind.file raws = wr at h2 ⊢
+            obtain ⟨s3, hs⟩ := wr
+            exact h2
+
+theorem std_sync {s : Sys} (w : Nat) (h : SyncOk s) : SyncOk (s.std w).1 := by
+  unfold Sys.std
+  split
+  · exact h
+  · exact h
+
+theorem poll_sync {s : Sys} (i : Nat) (h : SyncOk s) : SyncOk (s.poll i).1 := by
+  unfold Sys.poll
+  cases hio : s.ops[i]? with
+  | none => exact h
+  | some o =>
+    simp only []
+    split
+    · exact h
+    · exact pollCore_sync i h
+
+theorem step_sync {s : Sys} (st : Step) (h : SyncOk s) : SyncOk (s.next st) := by
+  unfold Sys.next Sys.step
+  cases st with
+  | std w => exact std_sync w h
+  | newOp k r a => exact newOp_sync k r a h
+  | poll i => exact poll_sync i h
+  | pollFb i fb => exact pollFb_sync i fb h
+  | dropOp i => exact dropOp_sync i h
+  | dropH a => exact dropH_sync a h
+  | kpost i out more => exact kpost_sync i out more h
+  | rpoll => exact rpoll_sync h
+
+theorem run_sync {s : Sys} (steps : List Step) (h : SyncOk s) : SyncOk (run s steps) := by
+  induction steps generalizing s with
+  | nil => exact h
+  | cons st rest ih => exact ih (step_sync st h)
+
+
 /-! ### Runs -/
 
 theorem step_inv {s : Sys} (st : Step) (h : Inv s) : Inv (s.next st) := by
@@ -2426,6 +2866,7 @@ theorem step_inv {s : Sys} (st : Step) (h : Inv s) : Inv (s.next st) := by
   | std w => exact std_inv w h
   | newOp k r a => exact newOp_inv k r a h
   | poll i => exact poll_inv i h
+  | pollFb i fb => exact pollFb_inv i fb h
   | dropOp i => exact dropOp_inv i h
   | dropH a => exact dropH_inv a h
   | kpost i out more => exact kpost_inv i out more h
@@ -2445,5 +2886,10 @@ theorem start_inv (sqLen slotLo slots fileLo fileHi : Nat) (hlo : 3 ≤ fileLo) 
   show InvG _ _
   constructor <;> simp [start, Sys.targets, Uniq]
   exact hlo
+
+theorem start_sync (sqLen slotLo slots fileLo fileHi : Nat) :
+    SyncOk (start sqLen slotLo slots fileLo fileHi) := by
+  intro e he
+  simp [start] at he
 
 end A10.Fds
